@@ -89,6 +89,13 @@ def make_trace(ms, subs, parts, max_perms, rng):
 
 
 def main(prop, tier, seed, replay_file):
+    if replay_file:
+        import json as _json
+        with open(replay_file) as _f:
+            _rp = _json.load(_f)
+        if str(_rp.get("family", "")).startswith("group["):
+            from . import check_group
+            return check_group.main(prop, tier, seed, replay_file)
     def body(chk):
         thorough = tier == "thorough"
         rng = random.Random(seed)
@@ -182,5 +189,9 @@ def main(prop, tier, seed, replay_file):
                 chk.add_drift(len(r["drift"]), {"input": tr["ms"], "at": r["drift"][0]})
         chk.assumptions += ["member and topic names are compared in the implementation's (lexicographic) order; the harness uses names whose lexicographic order is their numeric order",
                             "inputs beyond 3 members / 2 topics / 5 partition sets are sampled (seeded), not exhaustive"]
+        # what the assignment function is given matters as much as what it computes: the member that leads looks the
+        # partitions up afresh in every generation (group family, Group.tla)
+        from . import check_group
+        check_group.leader_partitions(chk, tier, seed)
 
     run_check(prop, tier, seed, body)
